@@ -6,6 +6,10 @@ Tie:   (a) the translator harness/translate/pipeline.py (re-run on every check),
            (application, service classes with inheritance, method, in/out protocol, transport),
            a failure injected at each stage, ServerBase and WSGI, every protocol family; the
            firing-level trace the real code produces is compared with the model's,
+           also: ONE service class exposed by 2-3 applications (descriptors are shared), requests
+           interleaved with registrations (a listener added after the method was first used), and
+           every argument shape of the raised exceptions (no arguments, a class, non-string
+           arguments, a failing __str__, a bare custom class, Fault() / a Fault subclass),
        (c) correspondence `registration`: the handler lists of the real managers after a
            registration program against the model's,
 Oracle: the property's own predicate (written here, independently of the Coq text) on what the
@@ -151,138 +155,190 @@ def mref_key(m):
     return tuple(m)
 
 
-class World(object):
-    """the real objects a registration program builds"""
+SHAPES_OTHER = ('one', 'noargs', 'cls', 'many', 'nonstr', 'badstr', 'bare')
+SHAPES_FAULT = ('std', 'default', 'sub')
 
-    def __init__(self, case, tap):
-        from spyne import Application, rpc, ServiceBase, Unicode, Integer
-        from spyne.evmgr import EventManager
-        from spyne.model.fault import Fault
+
+class _BadStr(Exception):
+    """an exception whose text cannot be produced"""
+    def __str__(self):
+        raise TypeError('no text')
+    __repr__ = __str__
+
+
+class _Bare(Exception):
+    pass
+
+
+def split_mode(mode):
+    """'other/noargs' -> ('other', 'noargs')"""
+    return tuple(mode.split('/', 1)) if '/' in mode else (mode, None)
+
+
+class World(object):
+    """the real objects a registration program builds: service classes (with inheritance),
+    method-level managers, and one or MORE applications that expose the same target service
+    class, each with its own protocols and transport.  Built incrementally (apply), so that
+    requests and registrations can be interleaved (request)."""
+
+    def __init__(self, desc, default_app=None):
         from spyne.error import Redirect
-        self.case, self.tap = case, tap
-        self.classes, self.mgrs = [], []
+        self.desc = desc
+        self.default_app = default_app       # (inp, outp, driver) of application 0 when created lazily
+        self.classes, self.mgrs, self.apps = [], [], []
         self.listeners = {}
-        self.app = self.server = None
-        beh = {(b[0], b[1]): b[2] for b in case['beh']}
-        fn_mode = case['fn']
+        self.tap = None
+        self.beh = {}
+        self.fn_mode = 'ok'
         world = self
 
         class MyRedirect(Redirect):
             def do_redirect(self):
-                if fn_mode == 'redirect_fail' or getattr(self, 'fail', False):
-                    tap.steps['redirect'] = 'KOther'
+                if world.fn_mode == 'redirect_fail' or getattr(self, 'fail', False):
+                    world.tap.steps['redirect'] = 'KOther'
                     raise RuntimeError('redirect failed')
         self.MyRedirect = MyRedirect
 
-        def make_exc(kind, ctx, what):
-            if kind == 'KFault':
-                return Fault('Client.%s' % what, what)
-            if kind == 'KRedirect':
-                return MyRedirect(ctx, 'http://example.invalid/')
-            return RuntimeError(what)
-        self.make_exc = make_exc
+    # ---- exceptions of every shape
+    def make_exc(self, kind, ctx, what, shape=None):
+        """returns what is to be raised (an instance, or a class for shape 'cls')"""
+        from spyne.model.fault import Fault
+        if kind == 'KFault':
+            if shape == 'default':
+                return Fault()
+            if shape == 'sub':
+                class SubFault(Fault):
+                    def __init__(self):
+                        Fault.__init__(self, 'Client.Sub')
+                return SubFault()
+            return Fault('Client.%s' % what, what)
+        if kind == 'KRedirect':
+            return self.MyRedirect(ctx, 'http://example.invalid/')
+        if shape == 'noargs':
+            return RuntimeError()
+        if shape == 'cls':
+            return ValueError                      # raise ValueError  (class, instantiated by raise)
+        if shape == 'many':
+            return KeyError(what, 2, None)
+        if shape == 'nonstr':
+            return ValueError(b'\xff', object())
+        if shape == 'badstr':
+            return _BadStr()
+        if shape == 'bare':
+            return _Bare
+        return RuntimeError(what)
 
-        def listener(lid, ev):
-            key = (lid, ev)
-            if key not in self.listeners:
-                def f(ctx):
-                    role = None
-                    if tap.cur is not None:
-                        tap.cur[3].append(lid)
-                    tap.ltrace.append((ev, lid))
-                    k = beh.get(key)
-                    if k is not None:
-                        e = make_exc(k, ctx, 'listener')
-                        tap.raised.append(e)
-                        raise e
-                f.lid, f.ev = lid, ev
-                self.listeners[key] = f
-            return self.listeners[key]
-        self.listener = listener
+    def listener(self, lid, ev):
+        key = (lid, ev)
+        if key not in self.listeners:
+            world = self
+
+            def f(ctx):
+                tap = world.tap
+                if tap is None:
+                    return
+                if tap.cur is not None:
+                    tap.cur[3].append(lid)
+                tap.ltrace.append((ev, lid))
+                k = world.beh.get(key)
+                if k is not None:
+                    e = world.make_exc(k[0], ctx, 'listener', k[1])
+                    if isinstance(e, type):
+                        e = e()
+                    tap.raised.append(e)
+                    raise e
+            f.lid, f.ev = lid, ev
+            self.listeners[key] = f
+        return self.listeners[key]
+
+    def userfn(self):
+        world = self
+        from spyne.model.fault import Fault
 
         def userfn(ctx, x):
+            tap = world.tap
             tap.items.append(['func'])
             tap.ltrace.append(('func', 0))
             tap.fn_called += 1
-            if fn_mode == 'fault':
+            mode, shape = split_mode(world.fn_mode)
+            if mode == 'fault':
                 tap.steps['fn'] = 'KFault'
-                raise Fault('Client.FnFault', 'fn')
-            if fn_mode == 'other':
+                raise world.make_exc('KFault', ctx, 'FnFault', shape)
+            if mode == 'other':
                 tap.steps['fn'] = 'KOther'
-                raise KeyError('fn')
-            if fn_mode in ('redirect_ok', 'redirect_fail'):
+                if shape is None:
+                    raise KeyError('fn')
+                raise world.make_exc('KOther', ctx, 'fn', shape)
+            if mode in ('redirect_ok', 'redirect_fail'):
                 tap.steps['fn'] = 'KRedirect'
-                raise MyRedirect(ctx, 'http://example.invalid/')
+                raise world.MyRedirect(ctx, 'http://example.invalid/')
             tap.fn_returned = True
-            if fn_mode == 'nul':
+            if mode == 'nul':
                 return u'a\x00b'
             return u'r%s' % (x,)
+        return userfn
 
-        meta = type(ServiceBase)
-        desc = case['desc']
-        pending_app = []
-        for op in case['prog']:
-            if op[0] == 'mgr':
-                self.mgrs.append(EventManager(None))
-            elif op[0] == 'class':
-                i = len(self.classes)
-                bases = tuple(self.classes[b] for b in op[1]) or (ServiceBase,)
-                d = {'__module__': 'c14gen'}
-                if i == desc['cls']:
-                    d['f'] = rpc(Integer, _returns=Unicode, _evmgrs=[self.mgrs[k] for k in desc['mgrs']])(userfn)
-                self.classes.append(meta('C%d' % i, bases, d))
-            elif op[0] == 'add':
-                m = op[1]
-                if m[0] == 'svc':
-                    self.classes[m[1]].event_manager.add_listener(op[2], listener(op[3], op[2]))
-                elif m[0] == 'meth':
-                    self.mgrs[m[1]].add_listener(op[2], listener(op[3], op[2]))
-                else:
-                    self.ensure_app()
-                    self.manager(m).add_listener(op[2], listener(op[3], op[2]))
-            else:
-                raise ValueError(op)
-        self.ensure_app()
+    # ---- registration
+    def apply(self, op):
+        from spyne import rpc, ServiceBase, Unicode, Integer
+        from spyne.evmgr import EventManager
+        if op[0] == 'mgr':
+            self.mgrs.append(EventManager(None))
+        elif op[0] == 'class':
+            i = len(self.classes)
+            bases = tuple(self.classes[b] for b in op[1]) or (ServiceBase,)
+            d = {'__module__': 'c14gen'}
+            if i == self.desc['cls']:
+                d['f'] = rpc(Integer, _returns=Unicode,
+                             _evmgrs=[self.mgrs[k] for k in self.desc['mgrs']])(self.userfn())
+            self.classes.append(type(ServiceBase)('C%d' % i, bases, d))
+        elif op[0] == 'newapp':
+            self.new_app(op[1], op[2], op[3])
+        elif op[0] == 'add':
+            self.manager(op[1]).add_listener(op[2], self.listener(op[3], op[2]))
+        else:
+            raise ValueError(op)
 
-    def ensure_app(self):
-        if self.app is not None:
-            return
+    def new_app(self, inp, outp, driver):
+        """one more Application exposing the SAME target service class"""
         from spyne import Application
         from spyne.server import ServerBase
         from spyne.server.wsgi import WsgiApplication
-        case = self.case
-        self.inp, self.outp = make_protocol(case['inp'], True), make_protocol(case['outp'], False)
-        target = self.classes[case['desc']['cls']]
-        self.app = Application([target], TNS, in_protocol=self.inp, out_protocol=self.outp)
-        if case['driver'] == 'wsgi':
-            self.server = WsgiApplication(self.app, max_content_length=4096)
-        else:
-            self.server = ServerBase(self.app)
-        tap = self.tap
-        tap.roles[id(self.app.event_manager)] = 'app'
-        tap.roles[id(self.server.event_manager)] = 'tpt'
-        tap.roles[id(self.inp.event_manager)] = 'pin'
-        tap.roles[id(self.outp.event_manager)] = 'pout'
-        self.wrap_steps()
+        pin, pout = make_protocol(inp, True), make_protocol(outp, False)
+        target = self.classes[self.desc['cls']]
+        app = Application([target], TNS, name='App%d' % len(self.apps), in_protocol=pin, out_protocol=pout)
+        server = WsgiApplication(app, max_content_length=4096) if driver == 'wsgi' else ServerBase(app)
+        rec = {'app': app, 'server': server, 'inp': inp, 'outp': outp, 'pin': pin, 'pout': pout, 'driver': driver}
+        self.apps.append(rec)
+        self.wrap_steps(rec)
+        return rec
+
+    def app_rec(self, j):
+        while j == 0 and not self.apps:
+            if self.default_app is None:
+                raise ValueError('application 0 does not exist yet')
+            self.new_app(*self.default_app)
+        return self.apps[j]
 
     def manager(self, m):
-        if m[0] == 'app':
-            return self.app.event_manager
-        if m[0] == 'tpt':
-            return self.server.event_manager
-        if m[0] == 'pin':
-            return self.inp.event_manager
-        if m[0] == 'pout':
-            return self.outp.event_manager
         if m[0] == 'svc':
             return self.classes[m[1]].event_manager
         if m[0] == 'meth':
             return self.mgrs[m[1]]
+        rec = self.app_rec(m[1] if len(m) > 1 else 0)
+        if m[0] == 'app':
+            return rec['app'].event_manager
+        if m[0] == 'tpt':
+            return rec['server'].event_manager
+        if m[0] == 'pin':
+            return rec['pin'].event_manager
+        if m[0] == 'pout':
+            return rec['pout'].event_manager
         raise ValueError(m)
 
-    def wrap_steps(self):
-        """the outcome of each protocol step of this call is an INPUT of the model (observed here)"""
-        tap = self.tap
+    def wrap_steps(self, rec):
+        """the outcome of each protocol step of a call is an INPUT of the model (observed here)"""
+        world = self
 
         def wrap(obj, name, stage):
             orig = getattr(obj, name)
@@ -291,20 +347,84 @@ class World(object):
                 try:
                     return orig(*a, **kw)
                 except Exception as e:
-                    if not tap.by_listener(e):
+                    tap = world.tap
+                    if tap is not None and not tap.by_listener(e):
                         tap.steps[stage] = kind_of(e)
                     raise
             setattr(obj, name, w)
-        if hasattr(self.server, '_WsgiApplication__reconstruct_wsgi_request'):
-            wrap(self.server, '_WsgiApplication__reconstruct_wsgi_request', 'recon')
-        wrap(self.inp, 'create_in_document', 'create')
-        wrap(self.inp, 'decompose_incoming_envelope', 'decomp')
-        wrap(self.inp, 'generate_method_contexts', 'dispatch')
-        wrap(self.inp, 'deserialize', 'deser')
-        wrap(self.outp, 'serialize', 'ser')
+        if hasattr(rec['server'], '_WsgiApplication__reconstruct_wsgi_request'):
+            wrap(rec['server'], '_WsgiApplication__reconstruct_wsgi_request', 'recon')
+        wrap(rec['pin'], 'create_in_document', 'create')
+        wrap(rec['pin'], 'decompose_incoming_envelope', 'decomp')
+        wrap(rec['pin'], 'generate_method_contexts', 'dispatch')
+        wrap(rec['pin'], 'deserialize', 'deser')
+        wrap(rec['pout'], 'serialize', 'ser')
 
     def handlers(self, m, ev):
         return [f.lid for f in self.manager(m).handlers.get(ev, [])]
+
+    # ---- one request against application j
+    def request(self, j, kind, fn_mode, beh):
+        """drive the real implementation; returns the observation dict"""
+        from spyne.context import MethodContext
+        rec = self.app_rec(j)
+        tap = Tap()
+        tap.roles = {id(rec['app'].event_manager): 'app', id(rec['server'].event_manager): 'tpt',
+                     id(rec['pin'].event_manager): 'pin', id(rec['pout'].event_manager): 'pout'}
+        self.tap, self.fn_mode = tap, fn_mode
+        self.beh = {(b[0], b[1]): (b[2], b[3] if len(b) > 3 else None) for b in beh}
+        body, path, qs = request_bytes(rec['inp'], kind)
+        obs = {'harness_error': None}
+        _TAP[0] = tap
+        status = []
+        try:
+            if rec['driver'] == 'serverbase':
+                srv = rec['server']
+                # the call sequence of a ServerBase transport (spyne/server/zeromq.py serve_forever)
+                ctx = MethodContext(srv, MethodContext.SERVER)
+                ctx.in_string = [body]
+                contexts = srv.generate_contexts(ctx)
+                p_ctx = contexts[0]
+                if p_ctx.in_error:
+                    pass
+                else:
+                    srv.get_in_object(p_ctx)
+                    if p_ctx.in_error:
+                        pass
+                    else:
+                        srv.get_out_object(p_ctx)
+                srv.get_out_string(p_ctx)
+                out = b''.join(p_ctx.out_string)
+                p_ctx.close()
+                result = ('done', p_ctx.out_error is not None)
+            else:
+                env = {'REQUEST_METHOD': 'GET' if rec['inp'] == 'http' else 'POST', 'PATH_INFO': path,
+                       'QUERY_STRING': qs, 'SERVER_NAME': 'x', 'SERVER_PORT': '80', 'wsgi.url_scheme': 'http',
+                       'wsgi.input': BytesIO(body), 'CONTENT_LENGTH': str(len(body)), 'SCRIPT_NAME': '',
+                       'CONTENT_TYPE': 'application/octet-stream'}
+                it = rec['server'](env, lambda s, h, e=None: status.append(s))
+                try:
+                    out = b''.join(it)
+                finally:
+                    if hasattr(it, 'close'):
+                        it.close()
+                lc = tap.last_ctx
+                result = ('done', lc is not None and lc.out_error is not None)
+        except Exception as e:
+            result = ('escaped', kind_of(e))
+            try:
+                txt = str(e)[:120]
+            except Exception:
+                txt = '<no text>'
+            obs['escaped_repr'] = '%s: %s' % (type(e).__name__, txt)
+            out = b''
+        finally:
+            _TAP[0] = None
+            self.tap = None
+        obs.update({'items': tap.items, 'result': result, 'steps': dict(tap.steps), 'ltrace': tap.ltrace,
+                    'status': status[0] if status else None, 'fn_called': tap.fn_called,
+                    'fn_returned': tap.fn_returned, 'out': out[:200]})
+        return obs
 
 
 def make_protocol(name, is_in):
@@ -386,65 +506,67 @@ def applicable(case):
     return True
 
 
-# ------------------------------------------------------------------ running one case
+# ------------------------------------------------------------------ running cases and sessions
 def run_case(case):
-    """drive the real implementation; returns the observation dict"""
-    from spyne.context import MethodContext
+    """a flat case: one application, one request.  A case that carries a 'session' is the last
+    request of that session (several applications on one service class, requests and
+    registrations interleaved)."""
     install()
-    tap = Tap()
+    if 'session' in case:
+        res = run_session(case['session'])
+        if isinstance(res, dict):
+            return res, None
+        return res[-1][1], None
     obs = {'harness_error': None}
     try:
-        world = World(case, tap)
+        world = World(case['desc'], (case['inp'], case['outp'], case['driver']))
+        for op in case['prog']:
+            world.apply(op)
+        world.app_rec(0)
     except Exception as e:
         import traceback
         obs['harness_error'] = 'building the world failed: ' + traceback.format_exc()[-800:]
         return obs, None
-    body, path, qs = request_bytes(case['inp'], case['request'])
-    _TAP[0] = tap
-    status = []
+    return world.request(0, case['request'], case['fn'], case['beh']), world
+
+
+def project(steps, j):
+    """the registration program as seen by a call on application j: managers of the other
+    applications are not part of that world (they must never be reached)"""
+    prog = []
+    for op in steps:
+        if op[0] in ('mgr', 'class'):
+            prog.append(op)
+        elif op[0] == 'add':
+            m = op[1]
+            if m[0] in ('svc', 'meth'):
+                prog.append(op)
+            elif (m[1] if len(m) > 1 else 0) == j:
+                prog.append(['add', [m[0]], op[2], op[3]])
+    return prog
+
+
+def run_session(session):
+    """-> [(flat case, observation)] for every request step, or an observation with harness_error"""
+    install()
+    out = []
     try:
-        if case['driver'] == 'serverbase':
-            srv = world.server
-            # the call sequence of a ServerBase transport (spyne/server/zeromq.py serve_forever)
-            ctx = MethodContext(srv, MethodContext.SERVER)
-            ctx.in_string = [body]
-            contexts = srv.generate_contexts(ctx)
-            p_ctx = contexts[0]
-            if p_ctx.in_error:
-                pass
+        world = World(session['desc'])
+        for i, st in enumerate(session['steps']):
+            if st[0] == 'request':
+                r = st[1]
+                rec = world.app_rec(r['app'])
+                case = {'driver': rec['driver'], 'inp': rec['inp'], 'outp': rec['outp'],
+                        'prog': project(session['steps'][:i], r['app']), 'desc': session['desc'], 'beh': r['beh'],
+                        'request': r['request'], 'fn': r['fn'],
+                        'session': {'desc': session['desc'], 'steps': session['steps'][:i + 1]}}
+                out.append((case, world.request(r['app'], r['request'], r['fn'], r['beh'])))
             else:
-                srv.get_in_object(p_ctx)
-                if p_ctx.in_error:
-                    pass
-                else:
-                    srv.get_out_object(p_ctx)
-            srv.get_out_string(p_ctx)
-            out = b''.join(p_ctx.out_string)
-            p_ctx.close()
-            result = ('done', p_ctx.out_error is not None)
-        else:
-            env = {'REQUEST_METHOD': 'GET' if case['inp'] == 'http' else 'POST', 'PATH_INFO': path,
-                   'QUERY_STRING': qs, 'SERVER_NAME': 'x', 'SERVER_PORT': '80', 'wsgi.url_scheme': 'http',
-                   'wsgi.input': BytesIO(body), 'CONTENT_LENGTH': str(len(body)), 'SCRIPT_NAME': '',
-                   'CONTENT_TYPE': 'application/octet-stream'}
-            it = world.server(env, lambda s, h, e=None: status.append(s))
-            try:
-                out = b''.join(it)
-            finally:
-                if hasattr(it, 'close'):
-                    it.close()
-            lc = tap.last_ctx
-            result = ('done', lc is not None and lc.out_error is not None)
-    except Exception as e:
-        result = ('escaped', kind_of(e))
-        obs['escaped_repr'] = '%s: %s' % (type(e).__name__, str(e)[:120])
-        out = b''
-    finally:
-        _TAP[0] = None
-    obs.update({'items': tap.items, 'result': result, 'steps': dict(tap.steps), 'ltrace': tap.ltrace,
-                'status': status[0] if status else None, 'fn_called': tap.fn_called,
-                'fn_returned': tap.fn_returned, 'out': out[:200]})
-    return obs, world
+                world.apply(st)
+    except Exception:
+        import traceback
+        return {'harness_error': 'running the session failed: ' + traceback.format_exc()[-800:]}
+    return out
 
 
 # ------------------------------------------------------------------ Gallina printers
@@ -536,10 +658,15 @@ def expected_calls(case, mgrs, who, ev, has_desc):
 def label(case, obs=None):
     """shape of the injection: driver, request kind, function behaviour, the listeners that raised"""
     called = None if obs is None else {(e, l) for e, l in obs.get('ltrace', [])}
-    raising = sorted('%s:%s' % (b[1].replace('method_', ''), b[2]) for b in case['beh']
-                     if called is None or (b[1], b[0]) in called)
-    return '%s|request=%s|fn=%s|listener=%s' % (case['driver'], case['request'], case['fn'],
-                                                 '+'.join(sorted(set(raising))) or 'none')
+    raising = sorted('%s:%s%s' % (b[1].replace('method_', ''), b[2], '/' + b[3] if len(b) > 3 and b[3] else '')
+                     for b in case['beh'] if called is None or (b[1], b[0]) in called)
+    lab = '%s|request=%s|fn=%s|listener=%s' % (case['driver'], case['request'], case['fn'],
+                                                '+'.join(sorted(set(raising))) or 'none')
+    if 'session' in case:
+        steps = case['session']['steps']
+        lab += '|shared-service(apps=%d,request#%d)' % (sum(1 for x in steps if x[0] == 'newapp'),
+                                                       sum(1 for x in steps if x[0] == 'request'))
+    return lab
 
 
 def in_alphabet(case):
@@ -547,7 +674,7 @@ def in_alphabet(case):
     for b in case['beh']:
         if b[1] not in ('method_call', 'method_return_object') or b[2] not in ('KFault', 'KOther'):
             return False
-    return case['fn'] in ('ok', 'fault', 'other', 'nul')
+    return split_mode(case['fn'])[0] in ('ok', 'fault', 'other', 'nul')
 
 
 def oracle(case, obs):
@@ -741,19 +868,41 @@ def registered_pairs(prog):
     return sorted({(op[3], op[2]) for op in prog if op[0] == 'add'})
 
 
+def shaped(rng, kind):
+    """[kind, shape]: the argument shape of the raised exception is a dimension of its own"""
+    if kind == 'KOther':
+        return [kind, rng.choice(SHAPES_OTHER)]
+    if kind == 'KFault':
+        return [kind, rng.choice(SHAPES_FAULT)]
+    return [kind, None]
+
+
+def random_fn(rng, modes):
+    m = rng.choice(modes)
+    if m == 'other' and rng.random() < .8:
+        return 'other/' + rng.choice(SHAPES_OTHER)
+    if m == 'fault' and rng.random() < .5:
+        return 'fault/' + rng.choice(SHAPES_FAULT)
+    return m
+
+
 def alphabet_beh(rng, prog, n=None):
     pairs = [p for p in registered_pairs(prog) if p[1] in ('method_call', 'method_return_object')]
     if not pairs:
         return []
     n = rng.choice([0, 1, 1, 2]) if n is None else n
-    return [[l, e, rng.choice(['KFault', 'KOther'])] for l, e in rng.sample(pairs, min(n, len(pairs)))]
+    return [[l, e] + shaped(rng, rng.choice(['KFault', 'KOther'])) for l, e in rng.sample(pairs, min(n, len(pairs)))]
 
 
 def wild_beh(rng, prog):
     pairs = registered_pairs(prog)
     if not pairs:
         return []
-    return [[l, e, rng.choice(['KFault', 'KOther', 'KRedirect'])] for l, e in rng.sample(pairs, min(rng.randint(1, 3), len(pairs)))]
+    return [[l, e] + shaped(rng, rng.choice(['KFault', 'KOther', 'KRedirect']))
+            for l, e in rng.sample(pairs, min(rng.randint(1, 3), len(pairs)))]
+
+
+SHAPE_PAIRS = [('xml', 'xml'), ('soap11', 'soap11'), ('json', 'json'), ('http', 'json')]
 
 
 def dense_cases():
@@ -774,6 +923,15 @@ def dense_cases():
             variants.append({'beh': [[1, 'method_return_object', 'KOther']], 'fn': 'other'})
             variants.append({'beh': [[11, 'method_call', 'KFault']], 'fn': 'nul'})
             variants.append({'beh': [[14, 'method_return_object', 'KFault']]})
+            if (inp, outp) in SHAPE_PAIRS:
+                # the argument shape of the raised exception: no arguments, a class, several / non-string
+                # arguments, a text that cannot be produced, a bare custom class; Fault() and a Fault subclass
+                variants += [{'fn': 'other/' + sh} for sh in SHAPES_OTHER]
+                variants += [{'fn': 'fault/' + sh} for sh in SHAPES_FAULT[1:]]
+                for ev in ('method_call', 'method_return_object'):
+                    for lid in (1, 11):
+                        variants += [{'beh': [[lid, ev, 'KOther', sh]]} for sh in SHAPES_OTHER[1:]]
+                        variants += [{'beh': [[lid, ev, 'KFault', sh]]} for sh in SHAPES_FAULT[1:]]
             for v in variants:
                 c = dict(base)
                 c.update(v)
@@ -789,21 +947,140 @@ def random_cases(rng, n, wild=False):
         inp, outp = rng.choice(PAIRS)
         c = {'driver': rng.choice(['serverbase', 'wsgi']), 'inp': inp, 'outp': outp, 'prog': prog, 'desc': desc,
              'request': rng.choice(['ok'] * 6 + REQUESTS[1:]),
-             'fn': rng.choice(['ok'] * 4 + FNS[1:]) if not wild else rng.choice(FNS),
+             'fn': random_fn(rng, ['ok'] * 4 + FNS[1:]) if not wild else random_fn(rng, FNS),
              'beh': wild_beh(rng, prog) if wild else alphabet_beh(rng, prog)}
         if applicable(c):
             out.append(c)
     return out
 
 
+def dense_session():
+    """ONE service class exposed by three applications (SOAP, JSON, XML; WSGI and ServerBase), the
+    first built before any listener is registered, the second in the middle, the third at the end;
+    a request on each; then listeners registered AFTER the method has been used (service-, method-,
+    application-level), and a request on each application again"""
+    prog, desc = dense_prog()
+    steps = [op for op in prog if op[0] in ('mgr', 'class')]
+    steps.append(['newapp', 'soap11', 'soap11', 'wsgi'])
+    steps += [op for op in prog if op[0] == 'add' and op[1][0] in ('svc', 'meth')]
+    steps.append(['newapp', 'json', 'json', 'serverbase'])
+    for j in (0, 1):
+        steps += [['add', [op[1][0], j], op[2], op[3] + 100 * j] for op in prog if op[0] == 'add' and op[1][0] in ('app', 'tpt', 'pin', 'pout')]
+    steps.append(['newapp', 'xml', 'xml', 'wsgi'])
+    steps += [['add', [op[1][0], 2], op[2], op[3] + 200] for op in prog if op[0] == 'add' and op[1][0] in ('app', 'tpt', 'pin', 'pout')]
+
+    def reqs(extra):
+        out = []
+        for j in (0, 1, 2):
+            out.append(['request', {'app': j, 'request': 'ok', 'fn': 'ok', 'beh': []}])
+            out.append(['request', {'app': j, 'request': 'ok', 'fn': 'other/noargs', 'beh': []}])
+            out.append(['request', {'app': j, 'request': 'invalid_arg', 'fn': 'ok', 'beh': []}])
+            out.append(['request', {'app': j, 'request': 'ok', 'fn': 'ok', 'beh': [[11, 'method_call', 'KFault', 'std']]}])
+            out += extra(j)
+        return out
+    steps += reqs(lambda j: [])
+    # registration after first use
+    late = []
+    for ev in ('method_call', 'method_return_object', 'method_exception_object', 'method_return_document',
+               'method_exception_string'):
+        late += [['add', ['svc', 1], ev, 41], ['add', ['meth', 0], ev, 42], ['add', ['svc', 0], ev, 43]]
+        late += [['add', ['app', j], ev, 44 + 100 * j] for j in (0, 1, 2)]
+    steps += late
+    steps += reqs(lambda j: [['request', {'app': j, 'request': 'ok', 'fn': 'ok',
+                                          'beh': [[41, 'method_return_object', 'KOther', 'bare']]}]])
+    return {'desc': desc, 'steps': steps}
+
+
+def random_session(rng):
+    """a random registration program with 2-3 applications on the target service class created
+    at random moments, and requests interleaved with further registrations"""
+    prog, desc = random_prog(rng)
+    # everything up to the class statement of the target first
+    upto = [i for i, op in enumerate(prog) if op[0] == 'class'][desc['cls']]
+    head, tail = prog[:upto + 1], prog[upto + 1:]
+    napps = rng.randint(2, 3)
+    nc = sum(1 for op in prog if op[0] == 'class')
+    nm = sum(1 for op in prog if op[0] == 'mgr')
+    lids = list(range(1, 7))
+    steps = list(head)
+    made = 0
+
+    def newapp():
+        inp, outp = rng.choice([p for p in PAIRS])
+        driver = 'wsgi' if inp == 'http' else rng.choice(['serverbase', 'wsgi'])
+        return ['newapp', inp, outp, driver]
+
+    def retarget(op):
+        m = op[1]
+        if m[0] in ('svc', 'meth'):
+            return op
+        if not made:
+            return None
+        return ['add', [m[0], rng.randrange(made)], op[2], op[3]]
+
+    def request():
+        j = rng.randrange(made)
+        visible = project(steps, j)
+        return ['request', {'app': j, 'request': rng.choice(['ok'] * 5 + ['invalid_arg', 'unknown_method', 'malformed']),
+                            'fn': random_fn(rng, ['ok'] * 4 + ['fault', 'other', 'other']),
+                            'beh': alphabet_beh(rng, visible)}]
+    # the remaining ops, applications and requests shuffled together (order of ops preserved)
+    slots = sorted(rng.sample(range(len(tail) + napps + 4), napps))
+    k = 0
+    for pos in range(len(tail) + napps + 4):
+        if pos in slots:
+            steps.append(newapp())
+            made += 1
+            if rng.random() < .6:
+                steps.append(request())
+        elif k < len(tail):
+            op = retarget(tail[k]) if tail[k][0] == 'add' else tail[k]
+            k += 1
+            if op is not None:
+                steps.append(op)
+        elif made:
+            # late registrations on the levels that matter, then a request
+            m = rng.choice([['svc', desc['cls']], ['svc', rng.randrange(nc)], ['app', rng.randrange(made)]]
+                           + [['meth', x] for x in desc['mgrs']])
+            steps.append(['add', m, rng.choice(['method_call', 'method_return_object', 'method_exception_object',
+                                                'method_return_string']), rng.choice(lids)])
+            steps.append(request())
+    for _ in range(rng.randint(1, 2)):
+        steps.append(request())
+    ok = []
+    for st in steps:       # drop requests the protocol has no wire form for
+        if st[0] == 'request':
+            apps = [x for x in ok if x[0] == 'newapp']
+            a = apps[st[1]['app']]
+            if request_bytes(a[1], st[1]['request']) is None:
+                continue
+        ok.append(st)
+    return {'desc': desc, 'steps': ok}
+
+
 # ------------------------------------------------------------------ the check
 def short(case):
-    return '%s %s->%s request=%s fn=%s beh=%s prog=%d ops' % (case['driver'], case['inp'], case['outp'], case['request'],
-                                                            case['fn'], case['beh'], len(case['prog']))
+    return '%s %s->%s request=%s fn=%s beh=%s prog=%d ops%s' % (
+        case['driver'], case['inp'], case['outp'], case['request'], case['fn'], case['beh'], len(case['prog']),
+        ' (session: %s)' % label(case).rsplit('|', 1)[1] if 'session' in case else '')
 
 
 def evaluate(check, case, cases_out, use_oracle=True):
     obs, world = run_case(case)
+    return judge(check, case, obs, cases_out, use_oracle)
+
+
+def evaluate_session(check, session, cases_out, use_oracle=True):
+    res = run_session(session)
+    if isinstance(res, dict):
+        check.mismatch('pipeline', 'harness could not run a session: %s' % res['harness_error'])
+        return 0
+    for case, obs in res:
+        judge(check, case, obs, cases_out, use_oracle)
+    return len(res)
+
+
+def judge(check, case, obs, cases_out, use_oracle=True):
     if obs.get('harness_error'):
         check.mismatch('pipeline', 'harness could not build %s: %s' % (short(case), obs['harness_error']))
         return obs
@@ -814,11 +1091,13 @@ def evaluate(check, case, cases_out, use_oracle=True):
         return obs
     cases_out.append((g_case(case, obs), short(case)))
     key = (case['driver'], case['inp'], case['outp'], case['request'], case['fn'], tuple(map(tuple, case['beh'])),
-           tuple(sorted(obs['steps'].items())), obs['result'])
+           tuple(sorted(obs['steps'].items())), obs['result'], label(case) if 'session' in case else '')
     check.count(key)
     st = check.extra.setdefault('coverage_table', {})
     for k in (['driver=' + case['driver'], 'protocols=%s->%s' % (case['inp'], case['outp']), 'request=' + case['request'],
-               'fn=' + case['fn'], 'result=%s' % (obs['result'],), 'alphabet=%s' % in_alphabet(case)]
+               'fn=' + case['fn'], 'result=%s' % (obs['result'],), 'alphabet=%s' % in_alphabet(case),
+               'shared service, several applications=%s' % ('session' in case)]
+              + ['raising listener shape=%s/%s' % (b[2], b[3]) for b in case['beh'] if len(b) > 3]
               + ['step %s raised %s' % kv for kv in sorted(obs['steps'].items())]
               + ['listener raised at %s (%s)' % (i[1], i[4]) for i in obs['items'] if i[0] != 'func' and i[4]
                  and any((l, i[1]) in {(b[0], b[1]) for b in case['beh']} for l in i[3][-1:])]):
@@ -840,8 +1119,10 @@ def registration_cases(check, rng, n):
         prog, desc = random_prog(rng)
         case = {'driver': 'serverbase', 'inp': 'json', 'outp': 'json', 'prog': prog, 'desc': desc, 'beh': [],
                 'request': 'ok', 'fn': 'ok'}
-        tap = Tap()
-        world = World(case, tap)
+        world = World(desc, ('json', 'json', 'serverbase'))
+        for op in prog:
+            world.apply(op)
+        world.app_rec(0)
         ref = ref_handlers(prog)
         ms = [['app'], ['tpt'], ['pin'], ['pout']] + [['svc', i] for i in range(len(world.classes))] + \
              [['meth', k] for k in range(len(world.mgrs))]
@@ -877,6 +1158,9 @@ def run(check):
         wc = random_cases(rng, 80 if quick else 1500, wild=True)
         for c in wc:
             evaluate(check, c, cases, use_oracle=False)
+        nsess = evaluate_session(check, dense_session(), cases)
+        for _ in range(30 if quick else 600):
+            nsess += evaluate_session(check, random_session(rng), cases)
         regs = registration_cases(check, rng, 25 if quick else 400)
     finally:
         uninstall()
@@ -887,12 +1171,16 @@ def run(check):
     res = lib.flush_correspondences(check)
     stages_hit = {}
     check.sample({'dense': short(dc[0]), 'cases': {'dense': len(dc), 'random': len(rc), 'out-of-alphabet': len(wc),
+                                                   'requests in shared-service sessions': nsess,
                                                    'registration': len(regs)}})
     check.sample({'example_case': dc[1], 'note': 'a replay file carries exactly such a case'} if len(dc) > 1 else {})
-    check.rule = ('a case is one call against one generated application: registration program (class statements with '
+    check.rule = ('a case is one call against one generated application (alone, or one of 2-3 applications that expose '
+                  'the SAME service class, with requests and registrations interleaved): registration program (class statements with '
                   'inheritance, add_listener calls on application / service / method / protocol / transport managers), '
                   'protocol pair, driver (ServerBase call sequence or WsgiApplication.__call__), request kind, user function '
-                  'behaviour, raising listeners; distinct = distinct (driver, protocols, request, function, raising listeners, '
+                  'behaviour, raising listeners, and the argument shape of every raised exception (no arguments, a class, '
+                  'several / non-string arguments, a text that cannot be produced, a bare custom class, Fault() and a '
+                  'Fault subclass); distinct = distinct (driver, protocols, request, function, raising listeners, '
                   'observed step outcomes, result) tuples; every case is compared firing by firing with the model')
     check.trusted = lib.COMMON_TRUSTED + [
         'harness/c14.py instruments EventManager.fire_event and MethodContext.fire_event (wrappers that call the originals) '
@@ -927,7 +1215,10 @@ def replay(check, path):
         elif 'prog' in r:
             case = {'driver': 'serverbase', 'inp': 'json', 'outp': 'json', 'prog': r['prog'], 'desc': {'mgrs': [], 'cls': 0},
                     'beh': [], 'request': 'ok', 'fn': 'ok'}
-            world = World(case, Tap())
+            world = World(case['desc'], ('json', 'json', 'serverbase'))
+            for op in case['prog']:
+                world.apply(op)
+            world.app_rec(0)
             got = world.handlers(r['manager'], r['event'])
             want = ref_handlers(r['prog'])[mref_key(r['manager'])].get(r['event'], [])
             print('handlers', got, 'expected', want)
